@@ -12,6 +12,7 @@ import (
 	"os"
 	"path/filepath"
 	"sort"
+	"strings"
 	"testing"
 	"time"
 
@@ -215,7 +216,9 @@ func (H) Gen(prop string, seed uint64, tier string) *hx.Case {
 	var viols []string
 	var c05 []string
 	switch prop {
-	case "C04", "C02":
+	case "C02":
+		violP, viols = 0.3, []string{"bad-sig", "bad-sig", "tap-undef-hashtype", "tap-single-oor"}
+	case "C04":
 		violP, viols = 0.4, append(append([]string{}, ledger.C04Violations...), ledger.C04Boundary...)
 	case "C05":
 		violP, c05 = 0.4, ledger.C05Violations
@@ -876,6 +879,20 @@ func (H) Run(t *testing.T, c *hx.Case) *hx.Outcome {
 	})
 	out.Evals = 1
 	out.Sample = r.sample(ops)
+	if prop == "C02" {
+		// only script-related disagreements belong to C02; everything else is the business of C04/C06
+		var keep []hx.Violation
+		for _, v := range out.Violations {
+			if v.Class == "c04.script" || v.Class == "deliver.valid-refused" && strings.Contains(v.Msg, "VerifyScript") {
+				keep = append(keep, v)
+			} else if !strings.HasPrefix(v.Class, "sim.") {
+				out.Probe("not_a_c02_matter:"+v.Class, 1)
+			} else {
+				keep = append(keep, v)
+			}
+		}
+		out.Violations = keep
+	}
 	if !out.Absorb(prop, "history", &res) {
 		return out
 	}
